@@ -1973,6 +1973,127 @@ fn many_user_dictionaries(sink: &mut Sink, rng: &mut Rng) {
     }
 }
 
+// ---------------------------------------------------------------- inline references that meet ONE entry with their surface
+/// An inline reference `surface,POS,reading` names the entry with exactly that surface, POS and reading: own entries first
+/// (RawDictResolver), then -- for a user dictionary -- the system dictionary (BinDictResolver); no such entry = build error.
+/// Directed, whatever the seed: the lexicon being compiled holds exactly ONE entry with the referenced surface, and that
+/// entry differs from the reference in POS (variant bit 0) and / or reading (bit 1).
+///   user, hit: the intended entry (same surface, the referenced POS and reading) is in the system dictionary -> resolved to it;
+///   user, miss / system, miss: no entry matches -> the build must fail, never resolve silently.
+/// Returns the case and whether a build error is expected.
+fn inline_directed_case(v: usize, scratch_base: &std::path::Path) -> (Case, bool) {
+    let diff = 1 + v % 3; // 1 POS, 2 reading, 3 both
+    let shape = v / 3; // 0 user-hit, 1 user-miss, 2 system-miss, 3 user-hit in split B with a second reference
+    let pool: Vec<Pos> = vec![std_pos(), ["動詞", "一般", "*", "*", "五段-カ行", "終止形-一般"].map(|x| x.to_string())];
+    let row = |surface: &str, pos: usize, reading: &str, mode: &'static str, a: Vec<Ref>, b: Vec<Ref>| Row {
+        surface: surface.to_string(),
+        left: 0,
+        right: 0,
+        cost: 100,
+        headword: surface.to_string(),
+        pos,
+        reading: reading.to_string(),
+        norm: surface.to_string(),
+        dic_form: DicForm::None,
+        mode,
+        split_a: a,
+        split_b: b,
+        word_structure: vec![],
+        synonyms: Some(vec![]),
+        star_lists: true,
+    };
+    // the referenced entry: 京都 / POS 0 / キョウト; the lone own entry with that surface differs from it
+    let (own_pos, own_reading) = (if diff & 1 != 0 { 1 } else { 0 }, if diff & 2 != 0 { "ミヤコ" } else { "キョウト" });
+    let reference = Ref::Inline { surface: "京都".to_string(), pos: 0, reading: "キョウト".to_string() };
+    let lone = row("京都", own_pos, own_reading, "A", vec![], vec![]);
+    let sys_rows = match shape {
+        // the intended entry is system word 1
+        0 | 3 => vec![row("東", 0, "ヒガシ", "A", vec![], vec![]), row("京都", 0, "キョウト", "A", vec![], vec![]), row("行", 1, "イ", "A", vec![], vec![])],
+        1 => vec![row("東", 0, "ヒガシ", "A", vec![], vec![]), row("行", 1, "イ", "A", vec![], vec![])],
+        _ => vec![row("東", 0, "ヒガシ", "A", vec![], vec![]), row("行", 1, "イ", "A", vec![], vec![]), lone.clone(), row("京都行", 0, "キョウトイキ", "C", vec![reference.clone(), Ref::Sys(1)], vec![])],
+    };
+    let sys = Lex { rows: sys_rows, user: false };
+    let user = match shape {
+        0 | 1 => Some(Lex { rows: vec![lone.clone(), row("京都行", 0, "キョウトイキ", "C", vec![reference.clone(), Ref::Sys(if shape == 0 { 2 } else { 1 })], vec![])], user: true }),
+        3 => Some(Lex { rows: vec![row("京都行", 0, "キョウトイキ", "B", vec![], vec![reference.clone(), Ref::Inline { surface: "行".to_string(), pos: 1, reading: "イ".to_string() }]), lone.clone()], user: true }),
+        _ => None,
+    };
+    let mut rng = Rng(0x1111 + v as u64);
+    let scratch_dir = scratch_base.join("scratch-inline");
+    let mut scratch = Sink::new("C05", &scratch_dir, &[], 0, "quick");
+    let sys_fields = render_fields(&sys, &pool, &mut rng, &mut scratch);
+    let user_fields = user.as_ref().map(|u| render_fields(u, &pool, &mut rng, &mut scratch)).unwrap_or_default();
+    let _ = std::fs::remove_dir_all(&scratch_dir);
+    let matrix = Matrix { nl: 1, nr: 1, lines: vec![(0, 0, 0)] };
+    let c = Case {
+        pool,
+        sys_csv: csv_of_fields(&sys_fields),
+        sys_fields,
+        user_csv: csv_of_fields(&user_fields),
+        user_fields,
+        matrix_text: "1 1\n0 0 0\n".to_string(),
+        matrix,
+        sys,
+        user,
+        user2: None,
+        user2_fields: vec![],
+        user2_csv: String::new(),
+        time: 0,
+        descr: "c05 inline directed".to_string(),
+    };
+    (c, shape == 1 || shape == 2)
+}
+const INLINE_DIRECTED: usize = 12;
+fn inline_directed(sink: &mut Sink, v: usize, verbose: bool) {
+    let (c, want_error) = inline_directed_case(v, &sink.dir.clone());
+    let desc = json!({"kind": "c05-inline-directed", "variant": v, "user": c.user.is_some(), "csv": c.sys_csv, "user_csv": c.user_csv, "matrix": c.matrix_text});
+    sink.tag(&format!("directed:inline_reference_meets_one_entry_with_its_surface:{}", ["user_hit_in_system", "user_no_match", "system_no_match", "user_hit_in_system_split_b"][v / 3]));
+    if !want_error {
+        run_case(sink, &c, desc, verbose);
+        return;
+    }
+    if verbose {
+        println!("system csv:\n{}user csv:\n{}", c.sys_csv, c.user_csv);
+    }
+    let id = sink.case_rust_only(desc, true);
+    let sys_built = compile_system(&c.sys_csv, &c.matrix_text, c.time, &c.descr);
+    let outcome: Result<(Vec<u8>, Option<Vec<u8>>), String> = match (&c.user, sys_built) {
+        (None, r) => r.map(|b| (b, None)),
+        (Some(_), Err(e)) => {
+            sink.fail(id, &format!("valid system lexicon rejected by the compiler: {}", e), "");
+            return;
+        }
+        (Some(_), Ok(sb)) => match catch(|| DictionaryLoader::read_system_dictionary(&sb).map(|d| d.to_loaded())) {
+            Ok(Ok(Some(l))) => compile_user(&l, &c.user_csv, c.time, &c.descr).map(|ub| (sb.clone(), Some(ub))),
+            _ => {
+                sink.fail(id, "compiled system dictionary does not load", "");
+                return;
+            }
+        },
+    };
+    match outcome {
+        Err(e) if e.starts_with("PANIC") => sink.fail(id, &format!("an inline reference that names no entry makes the compiler panic: {}", e), ""),
+        Err(e) => {
+            if verbose {
+                println!("build error, as expected: {}", e);
+            }
+        }
+        Ok((sb, ub)) => {
+            // show what the reference was silently resolved to
+            let got = match &ub {
+                Some(u) => load_with_user(sb, vec![u.clone()]).ok().map(|jd| readback(&jd, 1, 2)),
+                None => catch(|| DictionaryLoader::read_system_dictionary(&sb).map(|d| d.to_loaded())).ok().and_then(|r| r.ok()).flatten().map(|l| readback(&l, 0, 4)),
+            };
+            let splits: Vec<Vec<u32>> = got.unwrap_or_default().iter().filter_map(|r| if let Readback::Ok { a, .. } = r { Some(a.clone()) } else { None }).filter(|a| !a.is_empty()).collect();
+            sink.fail(
+                id,
+                &format!("the inline reference 京都,{},キョウト names no entry (the only entry with that surface differs in {}), yet the build succeeded: split A read back as {:?}", c.pool[0].join(","), ["", "POS", "reading", "POS and reading"][1 + v % 3], splits),
+                "",
+            );
+        }
+    }
+}
+
 fn case_from_state(state: u64, user: bool, big: bool, findings: bool, special: Option<usize>, sink: &mut Sink) -> Case {
     let mut r = Rng(state);
     gen_case_with(&mut r, sink, user, big, findings, special)
@@ -1981,7 +2102,7 @@ fn case_from_state(state: u64, user: bool, big: bool, findings: bool, special: O
 pub fn run(args: &Args) {
     let mut sink = Sink::new("C05", &args.out, &["Model.Codec", "Model.CodecIO", "Model.CodecResolve", "Model.CodecCsv", "Model.CodecCheck"], args.seed, &args.tier);
     sink.shard_size = 40;
-    sink.rule("random lexicons of 1..7 rows (strings of 1..3 chars or 126/127/128/129/255..257/32766/32767 UTF-16 units mixing kana, kanji, ASCII, U+7F/80/7FF/800/D7FF/E000/FFFF and astral characters, \\uXXXX and \\u{X} escapes, forms empty / equal to the headword / different, index form of 126..128 bytes, arrays of 0/1/2/63/64/65/127 ids, numeric, U-prefixed and inline references, dictionary-form references, synonym column present/absent/empty; form columns drawn from the texts that are special elsewhere in the format) x matrices 1..5 x 1..5 (non-square, duplicated and missing cells, extreme costs) x system / user dictionary; non-trivial = at least two rows (system) or a user dictionary; distinct by generated Coq term; first the directed lexicons (7 rows each: every form-column set x every special text, system and user; 6 rows each: split A / split B / word structure / synonym arrays of 0, 1, 63, 64, 65, 127 items in rotating positions, system and user); every entry is read back with all fields and with 22 field subsets that skip stored arrays / texts and request later fields, each requested field against the declared value; then the command-line and Python build routes with 2..3 lexicon files in 7 orders (non-alphabetical, repeated path, sub-directory, alphabetical) for system and user dictionaries; stacks of 1, 2, 13, 14 user dictionaries (every entry through the lexicon, MorphemeList::lookup and the analysis of its index form in modes C and A) and 15 / 16 user dictionaries, which must be refused");
+    sink.rule("random lexicons of 1..7 rows (strings of 1..3 chars or 126/127/128/129/255..257/32766/32767 UTF-16 units mixing kana, kanji, ASCII, U+7F/80/7FF/800/D7FF/E000/FFFF and astral characters, \\uXXXX and \\u{X} escapes, forms empty / equal to the headword / different, index form of 126..128 bytes, arrays of 0/1/2/63/64/65/127 ids, numeric, U-prefixed and inline references, dictionary-form references, synonym column present/absent/empty; form columns drawn from the texts that are special elsewhere in the format) x matrices 1..5 x 1..5 (non-square, duplicated and missing cells, extreme costs) x system / user dictionary; non-trivial = at least two rows (system) or a user dictionary; distinct by generated Coq term; first the directed lexicons (7 rows each: every form-column set x every special text, system and user; 6 rows each: split A / split B / word structure / synonym arrays of 0, 1, 63, 64, 65, 127 items in rotating positions, system and user); every entry is read back with all fields and with 22 field subsets that skip stored arrays / texts and request later fields, each requested field against the declared value; then the command-line and Python build routes with 2..3 lexicon files in 7 orders (non-alphabetical, repeated path, sub-directory, alphabetical) for system and user dictionaries; stacks of 1, 2, 13, 14 user dictionaries (every entry through the lexicon, MorphemeList::lookup and the analysis of its index form in modes C and A) and 15 / 16 user dictionaries, which must be refused; 12 directed lexicons whose inline reference meets exactly ONE own entry with its surface that differs in POS / reading (the intended entry in the system dictionary: resolved to it; no matching entry: build error)");
     if let Some(p) = &args.replay {
         let v: Value = serde_json::from_str(&std::fs::read_to_string(p).unwrap()).unwrap();
         let case = &v["case"];
@@ -1990,6 +2111,11 @@ pub fn run(args: &Args) {
             if let Ok(b) = b {
                 std::fs::write(case["out"].as_str().unwrap(), b).unwrap();
             }
+            sink.finish();
+            return;
+        }
+        if case["kind"] == "c05-inline-directed" {
+            inline_directed(&mut sink, case["variant"].as_u64().unwrap_or(0) as usize, true);
             sink.finish();
             return;
         }
@@ -2046,6 +2172,9 @@ pub fn run(args: &Args) {
                 procs += 1;
             }
         }
+    }
+    for v in 0..INLINE_DIRECTED {
+        inline_directed(&mut sink, v, false);
     }
     many_user_dictionaries(&mut sink, &mut rng);
     // the other public routes to the compiler (command-line tool, Python functions) with several lexicon files
